@@ -39,7 +39,7 @@ REGISTRY['C09'] = {
     'level_text': 'Against a ghost model of the (trusted) queue: a restart leaves no task in the running state and re-queues every task that was running, for any number of running tasks (unbounded loop invariant). The publish path schedules the RRDP update (unit c12_rfc8181). A committed CA event puts its follow-up on the queue in the same pre-save step (schedule_for_ca_event): repository sync after every object or key change, parent sync after a certificate request and after a key activation, the revocation task after a class is removed or an unexpected key is found. Queue transaction bodies (closure bodies lifted verbatim, R15) against a ghost model of the key-value transaction: schedule_task leaves the task pending exactly once at the time its mode prescribes, soonest modes keep the earlier of the two times, finish modes end the running entry, IfMissing never replaces, other tasks untouched; the claim fold step hands out the earliest due key; finish refuses only what is not running. Eventual execution, crash points and the scheduler loop are not decided.',
     'level_note': 'For the TaskQueue facade commons::queue::Queue is specified by assumed contracts (running/pending sets); in unit c09_queue the key-value Transaction (delete/store/has), task_storage_key/split_storage_key (format!/parse) and get_storage_key_and_time (find_map) carry assumed contracts and std::cmp::min::<u128> is assumed numeric; R7 (&self -> &mut self) lets the ghost model change.',
     'design_ref': 'DESIGN.md section 10.4 (as built) and section 5 / C09',
-    'not_covered': ['claim_scheduled_pending_task outside its fold step (list_keys/into_iter/fold glue, move to running)', 'reschedule_long_running_tasks', 'Task::name is injective (queue de-duplicates on names built with format!)', 'crash while a task is running (file system)', 'eventual execution (liveness)'],
+    'not_covered': ['claim_scheduled_pending_task outside its fold step (list_keys/into_iter/fold glue, move to running)', 'reschedule_long_running_tasks (assumed: moves a subset of the running entries to pending)', 'an ident is determined by the parts it was built from (assumed in c09_taskname)', 'crash while a task is running (file system)', 'eventual execution (liveness)'],
 }
 REGISTRY['C10'] = {
     'v': ['c10_current', 'c10_staged', 'c10_content', 'c11_snapshot', 'c12_rfc8181'],
@@ -50,12 +50,12 @@ REGISTRY['C10'] = {
     'not_covered': ['interleaving with RRDP file writes, session reset histories', 'publisher_rsync_base string construction'],
 }
 REGISTRY['C11'] = {
-    'v': ['c11_rrdp', 'c11_snapshot', 'c10_staged'],
+    'v': ['c11_rrdp', 'c11_update', 'c11_snapshot', 'c10_staged'],
     'k': [],
-    'level_text': 'In-memory RRDP state only: the next delta is derived from the staged changes by the merge table of unit c10_staged (publish/update/withdraw on top of earlier staged changes, withdraw carrying the hash of the object visible in RRDP); a session reset restarts at serial 1 without deltas and takes session/snapshot from the reset; truncation by size keeps the longest prefix of the delta list that fits the snapshot size; truncation by age/number keeps a prefix and respects the configured maximum whenever the minimum-retention rules do not apply (the unconditional maximum is a recorded finding, F5). Files on disk, hashes, the rsync directory switch and apply_rrdp_updated (by-value HashMap loop) are not decided.',
+    'level_text': 'In-memory RRDP state only: the whole of apply_rrdp_updated (by-value HashMap loop under R19) and apply_session_reset against the representation invariant that the retained deltas form a contiguous run ending at the current serial: an update raises the serial by exactly one, puts a delta with the new serial and the time of the update in front of (a prefix of) the older deltas, keeps the session, empties the staging area; a reset restarts at serial 1 without deltas; the next delta is derived from the staged changes by the merge table of unit c10_staged (publish/update/withdraw on top of earlier staged changes, withdraw carrying the hash of the object visible in RRDP); a session reset restarts at serial 1 without deltas and takes session/snapshot from the reset; truncation by size keeps the longest prefix of the delta list that fits the snapshot size; truncation by age/number keeps a prefix and respects the configured maximum whenever the minimum-retention rules do not apply (the unconditional maximum is a recorded finding, F5). Files on disk, hashes and the rsync directory switch are not decided.',
     'level_note': 'DeltaElements/SnapshotData sizes uninterpreted; the clock is an input (is_younger / is_older uninterpreted); VecDeque length < usize::MAX and no usize overflow of the summed delta sizes are preconditions.',
     'design_ref': 'DESIGN.md section 10.4 (as built) and section 5 / C11',
-    'not_covered': ['RrdpServer::apply_rrdp_updated outside one iteration of its loop (by-value HashMap iteration, serial + 1, push_front; a Kani harness over real URIs/Base64/HashMap gave no verdict in 25 min and was dropped); one iteration is verified: the staged changes of a publisher go to the snapshot and, unchanged, to the next delta', 'files on disk, hashes, notification switch, rsync tmp/current/old switch', 'apply_rrdp_staged frame (HashMap::entry)'],
+    'not_covered': ['that the snapshot after an update is the fold of the per-publisher steps over ALL publishers (the per-publisher step is verified: the staged changes of a publisher go to the snapshot and, unchanged, to the next delta; the loop is verified for serial / delta chain / staging area only)', 'files on disk, hashes, notification switch, rsync tmp/current/old switch', 'apply_rrdp_staged frame (HashMap::entry)'],
 }
 REGISTRY['C12'] = {
     'v': ['c12_rfc6492', 'c12_rfc8181', 'c03_child_revoke'],
